@@ -6,6 +6,21 @@ ROOT = os.path.dirname(os.path.dirname(os.path.abspath(__file__)))
 
 # id -> (level category, technique, level text, level note, design ref)
 CHECKS = {
+    "C05": ("exploration",
+            "property-based round-trip testing (proptest): generated command histories -> ConfigState -> every save/replay encoding -> projection equality",
+            "Generated command histories (every mutating verb, valid/invalid arguments, colliding pools) build a reachable ConfigState which is replayed through the in-memory bootstrap requests, the protobuf InitialState blob, the \\n\\0-separated JSON state file (a fraction through real files), the JSON upgrade payload and a within-verb permutation; each replay must be accepted in full and reproduce the projection. Bounded exploration.",
+            "The fork/exec of the main-process upgrade is not run; UpgradeData is represented by the ConfigState JSON round trip. Projection ignores request_counts and normalises empty buckets.",
+            "DESIGN.md §4 C05"),
+    "C06": ("exploration",
+            "property-based testing (proptest): generated pairs of reachable configurations, diff applied to the source, projection compared with the target",
+            "Pairs (A,B) sharing a generated prefix and diverging by independent suffixes; A.diff(B) is dispatched request by request onto a clone of A (each must be accepted) and must yield B; both directions; diff(A,A) must be empty. Bounded exploration.",
+            "Projection ignores request_counts and normalises empty buckets; only the ConfigState level is exercised (the worker fan-out of the diff is C08's domain).",
+            "DESIGN.md §4 C06"),
+    "C07": ("exploration",
+            "property-based testing (proptest): generated (state, command) pairs; rejected => state identical, accepted => frame condition on named objects",
+            "For generated reachable states and commands biased toward multi-field patches with one invalid field, certificate replacement with unparsable payloads, unknown enum values and missing targets (retargeted at existing objects 75% of the time): a rejected command must leave the strict projection identical, an accepted one may only change entries it names. Bounded exploration of the main-process state model.",
+            "Covers command/src/state.rs (the model shared by main process and workers); the worker's proxy-side application of a command is not in this tier.",
+            "DESIGN.md §4 C07"),
     "C04": ("exploration",
             "stateful property-based testing (proptest) of Router against a reference model of the documented precedence + metamorphic relations",
             "Generated add/remove histories over overlapping host/path/method alphabets are applied to the real sozu_lib::router::Router; after every operation 351 probes are compared with the admissible set of an independent model of the documented precedence, and metamorphic relations (tree insertion-order permutation, non-matching operation leaves routes unchanged) are checked. Bounded exploration: no proof of absence.",
